@@ -102,6 +102,16 @@ class RandomOracle:
                 return f
         if kind == "op":
             d = self._dur(info, True)
+            if info.get("timeout_fires"):
+                # a case whose attempt timeout can fire (Env._hangs): make the two answers that mean "hangs" likely
+                x = rng.random()
+                if x < 0.3:
+                    i = self.fresh()
+                    if i % 2 == 0:
+                        i = self.fresh()        # odd ids hang
+                    return Ans("raise", f"ordinary:{i}:TRANSIENT", dur=d)
+                if x < 0.45 and info.get("timeout_fires_async"):
+                    return Ans("raise", "cancelled", dur=d)
             r = rng.random()
             if r < p.p_cancel and p.faults == "all":
                 return Ans("raise", rng.choice(CANCEL_KINDS), dur=d)
